@@ -393,6 +393,73 @@ def _check_mesh_mask(ctx, mask, via, variant, nodes, faces, expected, topology, 
 
 # -- (e) -------------------------------------------------------------------
 
+def body_border(ctx, kind):
+    """Real geometries that meet the dataset only along its outer border or at a corner (boxes lying against it from
+    outside, points on corners and sides, lines along the border), and some that run along interior cell sides, on
+    datasets whose coordinates are exact in binary; which cells they touch is taken from independent reference polygons."""
+    import shapely
+    from harness import geomref
+    from emsarray.conventions.ugrid import UGrid
+    buffer = int(ctx.int('buffer', 0, 1))
+    mesh = None
+    if kind == 'cf1d':
+        ny, nx = 3, 4
+        ds = builders.cf1d(ny, nx, lat=numpy.array([10.0, 11.0, 12.0]), lon=numpy.array([0.0, 1.0, 2.0, 3.0]))
+        cv = ds.ems
+    elif kind == 'shoc_standard':
+        ny, nx = 3, 4
+        jj, ii = numpy.meshgrid(numpy.arange(4.0), numpy.arange(5.0), indexing='ij')
+        ds = builders.shoc_standard(ny, nx, node_x=ii * 2.0 - 4.0, node_y=jj - 1.0, face_x=numpy.zeros((3, 4)), face_y=numpy.zeros((3, 4)))
+        cv = ds.ems
+    else:
+        mesh = kind
+        ds = builders.ugrid(kind, with_edges=True)
+        cv = UGrid(ds)
+    ref = geomref.check(ctx, ds, cv)
+    N = len(ref)
+    minx, miny, maxx, maxy = shapely.unary_union([p for p in ref if p is not None]).bounds
+    midx, midy = (minx + maxx) / 2.0, (miny + maxy) / 2.0
+    geoms = {
+        'box against the east side': shapely.box(maxx, miny + 0.25, maxx + 1.0, miny + 0.75),
+        'box against the west side': shapely.box(minx - 2.0, miny, minx, maxy),
+        'box against the north side': shapely.box(minx, maxy, maxx, maxy + 0.5),
+        'box against the south side': shapely.box(midx, miny - 3.0, midx + 0.5, miny),
+        'box on the north-east corner': shapely.box(maxx, maxy, maxx + 1.0, maxy + 1.0),
+        'box on the south-west corner': shapely.box(minx - 1.0, miny - 1.0, minx, miny),
+        'point on the north-east corner': shapely.Point(maxx, maxy),
+        'point on the south-west corner': shapely.Point(minx, miny),
+        'point on the west side': shapely.Point(minx, miny + 0.5),
+        'line along the west side': shapely.LineString([(minx, miny + 0.25), (minx, miny + 0.75)]),
+        'line along the south side': shapely.LineString([(minx, miny), (maxx, miny)]),
+        'line to the north-west corner from outside': shapely.LineString([(minx - 1.0, maxy + 1.0), (minx, maxy)]),
+        'two boxes, east and west': shapely.MultiPolygon([shapely.box(maxx, miny, maxx + 1.0, miny + 0.5), shapely.box(minx - 1.0, maxy - 0.5, minx, maxy)]),
+        'box just off the east side': shapely.box(maxx + 1e-9, miny, maxx + 1.0, maxy),
+        'point just off the corner': shapely.Point(maxx + 1e-9, maxy),
+    }
+    for label, g in geoms.items():
+        hits = {n for n in range(N) if ref[n] is not None and ref[n].intersects(g)}
+        if 'off' not in label and (label.endswith('side') or 'corner' in label):
+            ctx.check(bool(hits) or mesh is not None, f'harness: {label} touches a cell')
+        if 'off' in label:
+            ctx.check(not hits, f'harness: {label} touches nothing')
+        mask = cv.make_clip_mask(g, buffer=buffer)
+        if mesh is None:
+            H = numpy.zeros((ny, nx), dtype=bool)
+            for n in hits:
+                H[n // nx, n % nx] = True
+            want = numpy.array([[bool(H[max(0, j - buffer):j + buffer + 1, max(0, i - buffer):i + buffer + 1].any()) for i in range(nx)] for j in range(ny)])
+            got = mask['face_mask' if kind == 'shoc_standard' else 'cell_mask'].values
+            ctx.check(got.shape == want.shape and bool(numpy.array_equal(got, want)), 'cell marked iff within `buffer` Chebyshev steps of an intersecting cell')
+        else:
+            faces = builders.MESHES[mesh][1]
+            expected = set(hits)
+            for _ in range(buffer):
+                expected = ref_ring(faces, expected)
+            new_face = mask['new_face_index'].values
+            got = {f for f in range(len(faces)) if not numpy.isnan(new_face[f])}
+            ctx.check(got == expected, 'buffer_faces: marked faces are the node-sharing closure, one ring per call')
+
+
 def body_monotone(ctx, h, w):
     """Enlarging the geometry (hit set) or the buffer never unmarks a cell:
     a consequence of the equalities checked above, discharged on the reference formula."""
@@ -407,6 +474,8 @@ def body_monotone(ctx, h, w):
 
 
 def cases(tier):
+    for kind in ('cf1d', 'shoc_standard', 'grid4', 'tqp', 'qqqtt', 'block'):
+        yield Case(f'border:{kind}', body_border, dict(kind=kind), max_paths=4)
     q = tier == 'quick'
     top = 3 if q else 4
     for h in range(1, top + 1):
